@@ -1149,3 +1149,58 @@ func VerifC14_OnewayDeny() {
 	}
 	verif.Cover("end")
 }
+
+// VerifC03_Oneway: a one-way request (no response sender): headers only, with
+// a body, with body and trailers; the pool accepts it, fails to connect or
+// overflows on every attempt; an event (upstream reset, the client's
+// connection going away) may arrive afterwards. The worker always comes back,
+// nothing is ever written to the (absent) client, the request is cleaned up
+// and its gauge released exactly once, an accepted request is written upstream
+// exactly once, and no timer stays armed.
+func VerifC03_Oneway() {
+	verif.Switches(0)
+	ds, sender, pool, p, ctx := zzMachine2(uint32(verif.Choose("num_retries", 2)), verif.Choose("retry_on", 2) == 1, true)
+	pool.scripted = true
+	active0 := p.stats.DownstreamRequestActive.Count()
+	var body buffer.IoBuffer
+	var trailers api.HeaderMap
+	switch verif.Choose("request_shape", 3) {
+	case 1:
+		body = buffer.NewIoBufferBytes([]byte("b"))
+	case 2:
+		body = buffer.NewIoBufferBytes([]byte("b"))
+		trailers = protocol.CommonHeader{"t": "v"}
+	}
+	done := false
+	verif.MustFinish(400000, "the worker handling a one-way request never comes back")
+	go func() {
+		ds.OnReceive(ctx, protocol.CommonHeader{}, body, trailers)
+		done = true
+	}()
+	verif.Settle()
+	verif.Finished()
+	verif.Assert(done, "the worker handling a one-way request is still waiting although nothing can answer it")
+	// late events must find a finished request
+	switch verif.Choose("late_event", 3) {
+	case 1:
+		if len(pool.senders) > 0 {
+			if ur := ds.upstreamRequest; ur != nil {
+				ur.OnResetStream(types.StreamConnectionTermination)
+			}
+		}
+	case 2:
+		ds.OnResetStream(types.StreamConnectionTermination)
+	}
+	verif.Settle()
+	verif.Assert(sender.headers == 0 && sender.ends == 0, "something was written to the client of a one-way request")
+	verif.Assert(p.stats.DownstreamRequestActive.Count() == active0-1, "the one-way request's DownstreamRequestActive was not released exactly once")
+	verif.Assert(len(pool.senders) <= 1, "a one-way request was sent upstream more than once")
+	for _, up := range pool.senders {
+		// (the proxy leaves the upstream stream of a one-way request alone: the pools do not count it)
+		verif.Assert(up.st.resets <= 1, "the upstream stream of a one-way request was reset twice")
+		verif.Assert(up.headers == 1, "the one-way request was not written upstream exactly once")
+		verif.Cover("sent")
+	}
+	verif.Assert(verif.NumTimers() == 0, "engine: a timer is still armed after a one-way request ended")
+	verif.Cover("end")
+}
